@@ -1,6 +1,7 @@
 (** C18 — Pay tokens and closing signatures can never stand in for each other. *)
 From ZK Require Import Model.Field Model.Zq Model.QBls Model.Pedersen Model.PS Model.Abacus Model.Ids
   Proofs.PSProofs Proofs.IdsProofs Proofs.MerchantProofs.
+From ZK Require Import Model.PS Model.Abacus Proofs.ChallengeProofs.
 Local Open Scope fld_scope.
 
 (** for EVERY stream of draws, a generated nonce is the first draw different from the close tag *)
@@ -50,6 +51,11 @@ Theorem C18_channel_id_preimage_single_change : forall mr cr pkb ma ca mr' cr' p
   cid_preimage mr cr pkb ma ca <> cid_preimage mr' cr' pkb' ma' ca'.
 Proof. exact channel_id_preimage_single_change. Qed.
 
+(** the key enters the channel id through its byte representation (g1, y1s, g2, x2, y2s), which determines every element of the key *)
+Theorem C18_channel_id_key_bytes_determine_key : forall (K : Fld) (pk pk' : pkey K),
+  length (pk_y1s pk) = length (pk_y1s pk') -> pk_to_bytes_atoms pk = pk_to_bytes_atoms pk' -> pk = pk'.
+Proof. exact pk_to_bytes_atoms_injective. Qed.
+
 Example C18_nonvacuous :
   nonce_new (fq 7) [fq 7; fq 7; fq 9; fq 7] = Some (fq 9) /\ nonce_new (fq 7) [fq 7; fq 7] = None /\
   nonce_decode (fq 7) (fq 7) = None /\ nonce_decode (fq 7) (fq 8) = Some (fq 8).
@@ -64,3 +70,4 @@ Print Assumptions C18_closing_signature_not_token.
 Print Assumptions C18_channel_id_deterministic.
 Print Assumptions C18_channel_id_preimage_single_change.
 Print Assumptions C18_nonvacuous.
+Print Assumptions C18_channel_id_key_bytes_determine_key.
